@@ -69,7 +69,7 @@ def main():
         for c in [pid] + also:
             t0 = time.time()
             rc, o = sh('%s/check %s quick' % (verif, c), timeout=3600, env={'VERIF_REPO': repo})
-            lines = [l for l in o.split('\n') if l.startswith('VIOLATION') or l.startswith('KNOWN-FINDING')]
+            lines = [l for l in o.split('\n') if l.startswith('VIOLATION')]
             res['checks'][c] = {'rc': rc, 'wall_s': round(time.time() - t0), 'lines': lines[:6],
                                 'detail': [l.strip() for l in o.split('\n') if l.startswith('  ')][:6]}
         # test suite with the change: must pass
@@ -91,7 +91,7 @@ def finish(res, seed_meta, dest):
     json.dump(meta, open(os.path.join(dest, 'meta.json'), 'w'), indent=1)
     ok = res.get('patch_applies') and res.get('demo_with_change_rc', 0) != 0 and res.get('demo_without_change_rc', 1) == 0 \
         and res.get('tests_pass_with_change', True)
-    caught = {c: (v['rc'] == 1 and any(l.startswith('VIOLATION') for l in v['lines'])) for c, v in res.get('checks', {}).items()}
+    caught = {c: (v['rc'] == 1) for c, v in res.get('checks', {}).items()}
     print(json.dumps({'seed_valid': bool(ok), 'caught': caught, 'demo_rc': res.get('demo_with_change_rc'), 'demo_clean_rc': res.get('demo_without_change_rc'),
                       'tests': res.get('tests_pass_with_change'), 'lines': {c: v['lines'][:2] + v['detail'][:2] for c, v in res.get('checks', {}).items()}}, indent=1))
     return 0
